@@ -53,6 +53,9 @@ class AbsorptionContribution(Contribution):
     def prepare_each(self,model,wngrid):
         self.debug('Preparing model with %s', wngrid.shape)
         self._ngrid = wngrid.shape[0]
+        # also needed when components are evaluated one by one
+        # (model_full_contrib) without an earlier prepare()
+        self._nlayers = model.nLayers
         self._use_ktables = GlobalCache()['opacity_method'] == 'ktables'
         self.info('Using cross-sections? %s', not self._use_ktables)
         weights = None
